@@ -319,13 +319,20 @@ static std::string permstr(const std::vector<int>& p)
 }
 
 // solve the LP that the accessors of s report with a newly constructed solver: with default settings (tag "f") and
-// with the settings of s (tag "g")
-static std::string freshSolve(SP& s, bool sameSettings, const char* tag)
+// with the settings of s (tag "g"), and without scaler and simplifier (tag "p")
+static std::string freshSolve(SP& s, int mode, const char* tag)
 {
    SP f;
    quiet(f);
 
-   if(sameSettings)
+   if(mode == 2)
+   {
+      // plain: neither scaling nor presolving
+      f.setIntParam(SP::SCALER, SP::SCALER_OFF);
+      f.setIntParam(SP::SIMPLIFIER, SP::SIMPLIFIER_OFF);
+   }
+
+   if(mode == 1)
    {
       f.setIntParam(SP::SCALER, s.intParam(SP::SCALER));
       f.setBoolParam(SP::PERSISTENTSCALING, s.boolParam(SP::PERSISTENTSCALING));
@@ -581,8 +588,8 @@ static void runCases(const char* file)
          {
             int st = (int)s->optimize();
             std::ostringstream o;
-            o << " ost=" << st << " oobj=" << dy(s->objValueReal()) << " " << freshSolve(*s, false, "f") << " "
-              << freshSolve(*s, true, "g");
+            o << " ost=" << st << " oobj=" << dy(s->objValueReal()) << " " << freshSolve(*s, 0, "f") << " "
+              << freshSolve(*s, 1, "g") << " " << freshSolve(*s, 2, "p");
             add = o.str();
          }
          else if(op == "GB")
